@@ -28,7 +28,7 @@ use spec::*;
 pub const PROPERTIES: &[&str] = &["C16", "C04"];
 
 const ENGINE_TAG: u64 = 4;
-const QUICK_RUNS: u64 = 20_000;
+const QUICK_RUNS: u64 = 16_000;
 const THOROUGH_FACTOR: u64 = 25;
 const SHRINK_TRIES: u64 = 4_000;
 /// A run needs milliseconds. A run that does not come back within this time is an endless loop
@@ -549,7 +549,10 @@ pub fn check(args: &CheckArgs) -> i32 {
     let mut violations: Vec<serde_json::Value> = Vec::new();
     for (sig, (count, first_idx, msg)) in &by_sig {
         let first = &runs[*first_idx];
-        if let Some(k) = known.iter().find(|k| k.property == property && k.signature == *sig) {
+        if let Some(k) = known
+            .iter()
+            .find(|k| k.property == property && crate::batch::signature_matches(&k.signature, sig))
+        {
             println!(
                 "KNOWN-FINDING: property={property} signature={sig} {} ({count} runs, e.g. seed {})",
                 k.text, first.seed
